@@ -687,3 +687,187 @@ def net_problems(spec, model, impl, completed):
                 probs.append(("replay-net", "process %s created the tasks %s (items by id, in creation order); the reference evaluator predicts %s" % (
                     nm.name[v], crt.get(v), nm.pred[v])))
     return probs, info
+
+
+# ------------------------------------------------------------------ fan-in ports (and the sink)
+
+def fanin_ports(spec, model):
+    """in-ports with several upstreams: (qualified port name, [(upstream label, [items it sends, in order])], parameter port?)"""
+    byproc = {}
+    for t in model["tasks"]:
+        byproc.setdefault(t["proc"], []).append(t)
+    def outputs(u, upport):
+        n = spec.nodes[u]
+        if n[0] == "SRC":
+            return list(n[2])
+        if n[0] == "PSRC":
+            return list(n[2])
+        if n[0] == "PROC":
+            out = []
+            for t in byproc.get(n[1].name, []):
+                if t["status"] in ("run", "skip") and t.get("emitted", True):
+                    for port, st, path in t["outs"]:
+                        if port == upport:
+                            out.append(path)
+            return out
+        return None
+    res = []
+    for i, n in enumerate(spec.nodes):
+        if n[0] != "PROC":
+            continue
+        for port, ups in n[1].ins:
+            if len(ups) >= 2:
+                plans = [(u, outputs(u, upport)) for u, upport in ups]
+                if all(p is not None for _, p in plans):
+                    # only a process whose single port this is consumes everything that arrives (otherwise the shortest
+                    # of its streams decides how many sets are complete)
+                    single = len(n[1].ins) == 1 and not n[1].pars
+                    res.append((n[1].name + "." + port, plans, False, single))
+    return res
+
+
+def sink_port(spec, model, hooks):
+    """the sink's file in-port: every out-port nobody consumes is connected to it (reconnectDeadEndConnections)"""
+    if spec.runto is not None or any(n[0] not in ("SRC", "PSRC", "PROC") for n in spec.nodes):
+        return None
+    name = None
+    for ts, ev, n, keys, gid in hooks:
+        if ev in ("port.send", "port.recv", "port.recv_closed", "port.close_connection") and keys and keys[0].endswith(".sink_in"):
+            name = keys[0]
+            break
+    if name is None:
+        return None
+    consumed = set()
+    for n in spec.nodes:
+        if n[0] == "PROC":
+            for port, ups in n[1].ins:
+                for u, upport in ups:
+                    consumed.add((u, upport))
+    byproc = {}
+    for t in model["tasks"]:
+        byproc.setdefault(t["proc"], []).append(t)
+    plans = []
+    for i, n in enumerate(spec.nodes):
+        if n[0] == "SRC" and (i, "out") not in consumed:
+            plans.append((n[1] + ".out", list(n[2])))
+        if n[0] == "PROC":
+            if n[1].stream_outs or n[1].join:
+                return None
+            for port, pat in n[1].outs:
+                if (i, port) not in consumed:
+                    out = []
+                    for t in byproc.get(n[1].name, []):
+                        if t["status"] in ("run", "skip") and t.get("emitted", True):
+                            out += [path for p2, st, path in t["outs"] if p2 == port]
+                    plans.append((n[1].name + "." + port, out))
+    if not plans:
+        return None
+    return name, plans
+
+
+def port_script(inport, plans, hooks, is_param=False):
+    """cap is set to the total number of items: the capacity of the channel is exercised by the network replay on
+    merge-free edges; here the order per upstream, exactly-once delivery and the closing protocol are replayed"""
+    items = {}
+    sender_of = {}
+    lines = []
+    total = sum(len(p) for _, p in plans)
+    for r, (u, paths) in enumerate(plans):
+        ids = []
+        for q in paths:
+            k = os.path.normpath(q) if not is_param else q
+            it = items.setdefault((r, k, len([x for x in ids if x[1] == k])), len(items))
+            ids.append((it, k))
+            sender_of.setdefault(k, []).append((r, it))
+        lines.append("plan %d %d %s" % (r, len(ids), " ".join(str(i) for i, _ in ids)))
+    header = ["port %d %d" % (len(plans), max(1, total))] + lines
+    out, notes = [], []
+    pre = "pport." if is_param else "port."
+    sent_count, recv_count = {}, {}
+    closed = 0
+    for ev in hooks:
+        ts, name, n, keys, gid = ev
+        if not name.startswith(pre) or not keys or keys[0] != inport:
+            continue
+        kind = name[len(pre):]
+        if kind in ("send", "recv"):
+            k = os.path.normpath(keys[1]) if not is_param else keys[1]
+            cands = sender_of.get(k)
+            if not cands:
+                out.append("chk 30 last 99999 0"); notes.append(ev)      # an item no upstream was to send
+                continue
+            cnt = sent_count if kind == "send" else recv_count
+            j = cnt.get(k, 0); cnt[k] = j + 1
+            r, it = cands[min(j, len(cands) - 1)]
+            if kind == "send":
+                out.append("do send %d" % r); notes.append(ev)
+            else:
+                out.append("do recv %d" % r); notes.append(ev)
+                out.append("chk 31 last %d %d" % (r, it)); notes.append(ev)
+        elif kind == "close_connection":
+            # the remote is named by its out-port; upstream order = order of the plans
+            rn = keys[1]
+            r = None
+            for idx, (u, _) in enumerate(plans):
+                if isinstance(u, str) and (rn.startswith(u + ".") or rn == u):
+                    r = idx
+            if r is None:
+                continue
+            out.append("do close %d" % r); notes.append(ev)
+        elif kind == "recv_closed":
+            out.append("do seeclosed"); notes.append(ev)
+    return header, out, notes
+
+
+def port_problems(spec, model, impl, completed):
+    probs, info = [], {"port_replays": 0, "port_events": 0}
+    names = {i: (n[1].name if n[0] == "PROC" else n[1]) for i, n in enumerate(spec.nodes) if n[0] in ("SRC", "PSRC", "PROC")}
+    todo = [(inport, [(names.get(u, str(u)), p) for u, p in plans], is_param, single) for inport, plans, is_param, single in fanin_ports(spec, model)]
+    sk = sink_port(spec, model, impl["hooks"])
+    if sk is not None:
+        todo.append((sk[0], sk[1], False, True))
+        info["sink_replays"] = 1
+    # downstream of a fan-in the order in which an upstream produces its items depends on arrival order at the merge: there
+    # the order of each upstream's own sends (from the log) is the plan, and the prediction is compared as a multiset
+    merged = any(len(ups) >= 2 for n in spec.nodes if n[0] == "PROC" for port, ups in n[1].ins)
+    for inport, plans, is_param, single in todo:
+        if merged:
+            seen_sends = {}
+            pre = "pport." if is_param else "port."
+            label_of = {}
+            for lab, pl in plans:
+                for q in pl:
+                    label_of[os.path.normpath(q) if not is_param else q] = lab
+            for ts, name, n, keys, gid in impl["hooks"]:
+                if name == pre + "send" and keys and keys[0] == inport:
+                    k = os.path.normpath(keys[1]) if not is_param else keys[1]
+                    if k in label_of:
+                        seen_sends.setdefault(label_of[k], []).append(keys[1])
+            newplans = []
+            for lab, pl in plans:
+                obs = seen_sends.get(lab, [])
+                if completed and sorted(os.path.normpath(x) for x in obs) != sorted(os.path.normpath(x) for x in pl):
+                    probs.append(("replay-port", "port %s: upstream %s sent %s, the reference evaluator predicts the items %s" % (inport, lab, obs[:6], pl[:6])))
+                newplans.append((lab, obs))
+            plans = newplans
+        header, out, notes = port_script(inport, plans, impl["hooks"], is_param)
+        res = run_rdriver("port", "\n".join(header + out) + "\n")
+        info["port_replays"] += 1; info["port_events"] += len(out)
+        info.setdefault("port_verdict", {})
+        info["port_verdict"] = res["verdict"] if info["port_verdict"] in ({}, "ACCEPT") else info["port_verdict"]
+        if res["verdict"] == "REJECT":
+            i = res["line"]
+            ev = notes[i] if i < len(notes) else None
+            probs.append(("replay-port", "the fan-in port machine (Port.step) for in-port %s has no execution that explains the event log: %s at log event %s; script line %r" % (
+                inport, res["why"], ev and (ev[1], ev[2], ev[3][:2]), out[i] if i < len(out) else None)))
+        elif res["verdict"] != "ACCEPT":
+            probs.append(("replay-error", "rdriver port: %s" % res.get("detail")))
+        elif completed and single:
+            for t in res["lines"]:
+                if t[0] == "closed" and (t[1] != "1" or t[3] != "1"):
+                    probs.append(("replay-port", "run completed but the replayed port %s is not closed / its receiver has not seen the end (%s)" % (inport, " ".join(t))))
+                if t[0] == "sender":
+                    want = len(plans[int(t[1])][1])
+                    if int(t[3]) != want or int(t[5]) != want:
+                        probs.append(("replay-port", "port %s: upstream %s sent %s and the receiver took %s of its %d items" % (inport, plans[int(t[1])][0], t[3], t[5], want)))
+    return probs, info
